@@ -5,6 +5,7 @@ import (
 	"bytes"
 	stdjson "encoding/json"
 	"fmt"
+	"io"
 	"math"
 	"reflect"
 	"strings"
@@ -163,6 +164,17 @@ func Configs(x any) (ds []Disagreement, ok bool) {
 			return buf.Bytes(), err
 		})
 		add(ec.name, seg, ref)
+		// a writer that uses the package itself before consuming the bytes it is handed (framing, logging)
+		add(ec.name+"(re-entrant writer)", guard(func() ([]byte, error) {
+			w := &reentrantWriter{}
+			e := json.NewEncoder(w)
+			e.SetEscapeHTML(ec.escape)
+			if ec.indent != "" || ec.prefix != "" {
+				e.SetIndent(ec.prefix, ec.indent)
+			}
+			err := e.Encode(x)
+			return w.buf.Bytes(), err
+		}), ref)
 	}
 	return ds, std.err == nil
 }
@@ -298,6 +310,16 @@ func typed(c *explore.Ctx) {
 	}
 }
 
+type reentrantWriter struct{ buf bytes.Buffer }
+
+var reentrantPayload = map[string]any{"header": strings.Repeat("H", 64), "n": 12345}
+
+func (w *reentrantWriter) Write(p []byte) (int, error) {
+	json.Marshal(reentrantPayload)
+	json.NewEncoder(io.Discard).Encode(reentrantPayload)
+	return w.buf.Write(p)
+}
+
 // ---- strings: every (length, position, byte value) single deviation, pairs of specials
 
 func encodeStringBoth(c *explore.Ctx, s string, site string) {
@@ -374,8 +396,8 @@ func stringSweep(c *explore.Ctx) {
 		body[pos] = 'a'
 	}
 	// U+2028 / U+2029 and multi-byte runes at every position
-	for pos := 0; pos+3 <= n; pos++ {
-		for _, r := range []string{" ", " ", "é", "\xe2\x80", "\xed\xa0\x80", "\U0001f600"} {
+	for pos := 0; pos+2 <= n; pos++ {
+		for _, r := range []string{" ", " ", "é", "\xe2\x80", "\xed\xa0\x80", "\U0001f600", "\ufffd", "\u0080", "\u07ff", "\u0800", "\uffff", "\U00010000", "\U0010ffff", "\xc0\x80", "\xf4\x90\x80\x80", "\xef\xbf", "\xef\xbf\xbe", "\xf0\x9f\x98"} {
 			if pos+len(r) <= n {
 				s := string(body[:pos]) + r + string(body[pos+len(r):])
 				encodeStringBoth(c, s, "rune")
